@@ -133,8 +133,26 @@ def r3(cx):
           "the task row is upserted before hooks run and before the message is emitted", ups[0].loc)
     exact_guards(cx, "C08.R3", "message-guards", f, emits[0].b,
                  required=[r"^TaskState::is_pending=False$", r"^TaskState::is_running=False$", r"^Task::is_emit_disabled=False$"],
-                 allowed=[],
+                 # "the task is still in the state this event was raised for" (the state read before the hooks ran)
+                 allowed=[r"^<TaskState as PartialEq>::eq=True$"],
                  what="a message is emitted exactly for tasks that are not pending, not running and not emit-disabled", loc=emits[0].loc)
+    # a message is not built for a state the hooks moved the task into: the live state is compared with the state read
+    # before run_hooks (whatever moved the task on has reported that itself)
+    same_state = False
+    for g in guards_of(m, f, emits[0].b, mode="alias"):
+        r = g.root
+        if r[0] == "call" and re.search(r"TaskState as std::cmp::PartialEq>::eq$", r[1]) and g.truth is True:
+            reads = []
+            for a in Call(f, r[2]).args:
+                ar = pa.root(f, a)
+                if ar[0] == "call" and ar[1] == T.Q_STATE and pa.root(f, Call(f, ar[2]).args[0]) == e:
+                    reads.append(ar[2])
+            if len(reads) == 2:
+                before = [b for b in reads if f.dominates(b, hooks[0].b)]
+                after = [b for b in reads if f.dominates(hooks[0].b, b)]
+                same_state = len(before) == 1 and len(after) == 1
+    cx.ob("C08.R3", "state-unchanged-by-hooks", same_state,
+          "the message is built only if the task is still in the state it had before its hooks ran (a hook that ends the task reports that ending itself)", emits[0].loc)
     msg = pa.root(f, emits[0].args[1])
     okm = msg[0] == "call" and msg[1].endswith("Task::create_message") and pa.root(f, Call(f, msg[2]).args[0]) == e
     cx.ob("C08.R3", "message-of-task", okm, "the emitted message is `create_message()` of the task the event is about", emits[0].loc)
